@@ -240,6 +240,10 @@ def generate(seed, prop):
         if name == "construct":
             cls = rng.choice(focus)
             ops.append({"op": name, "cls": cls, "args": None if rng.random() < 0.5 else draw_args(rng, cls)})
+            if ops[-1]["args"] and rng.random() < 0.25:
+                # the caller keeps its argument objects (one dict of FFT options, one list of corner frequencies ...) and
+                # builds a second settings object of the same class from the very same objects
+                ops.append({"op": "construct", "cls": cls, "args": ops[-1]["args"], "same_argument_objects": True})
         elif name == "mutate":
             ops.append({"op": name, "i": rng.randrange(8), "path": rng.choice(MUTABLE_PATHS),
                         "value": rng.choice([0.35, 0.77, 3.0, 7.5, 55.0, 16384])})
@@ -247,14 +251,14 @@ def generate(seed, prop):
             attr = rng.choice(ASSIGNABLE)
             ops.append({"op": name, "i": rng.randrange(8), "attr": attr, "value": draw_value_for(rng, attr)})
         elif name == "save":
-            op = {"op": name, "i": rng.randrange(8), "path": "sim:/s/" + rng.choice(["a", "b", "c"]) + ".json",
+            op = {"op": name, "i": rng.randrange(8), "path": "/simfs/s/" + rng.choice(["a", "b", "c"]) + ".json",
                   "via": rng.choice(["method", "function"])}
             if rng.random() < fault_rate:
                 op["fault"] = {"kind": rng.choice(["enospc", "eio_write", "crash_in_write", "short_write"]),
                                "frac": rng.choice([0.0, 0.1, 0.5, 0.9, 0.99])}
             ops.append(op)
         elif name in ("load_new", "dispatch_read", "load_into"):
-            op = {"op": name, "path": "sim:/s/" + rng.choice(["a", "b", "c"]) + ".json", "i": rng.randrange(8)}
+            op = {"op": name, "path": "/simfs/s/" + rng.choice(["a", "b", "c"]) + ".json", "i": rng.randrange(8)}
             if name != "load_into" and n_process < 2 and rng.random() < 0.35:
                 op["process"] = True
                 n_process += 1
@@ -270,8 +274,8 @@ def generate(seed, prop):
         a1, a2 = draw_args(rng, cls), draw_args(rng, cls)
         a1["fft_settings"], a2["fft_settings"] = draw_fft(rng), rng.choice([None, draw_fft(rng)])
         pos = rng.randint(0, len(ops))
-        ops[pos:pos] = [{"op": "construct", "cls": cls, "args": a2}, {"op": "save", "i": -1, "path": "sim:/s/z.json", "via": "method"},
-                        {"op": "construct", "cls": cls, "args": a1}, {"op": "load_into", "path": "sim:/s/z.json", "i": -1}]
+        ops[pos:pos] = [{"op": "construct", "cls": cls, "args": a2}, {"op": "save", "i": -1, "path": "/simfs/s/z.json", "via": "method"},
+                        {"op": "construct", "cls": cls, "args": a1}, {"op": "load_into", "path": "/simfs/s/z.json", "i": -1}]
     return {"machine": "settings", "property": prop, "run_seed": int(seed),
             "config": {"weights": w, "fault_rate": fault_rate, "focus": focus},
             "world": {"records": {"k": rng.randrange(1 << 30), "n": 1001, "rate": 100}}, "ops": ops, "faults": []}
@@ -385,7 +389,13 @@ def execute(triple, prop):
                 sigx = "-"
                 if name == "construct":
                     cls = getattr(H, op["cls"])
-                    kwargs = {k: dec(v) for k, v in (op["args"] or {}).items()}
+                    if op.get("same_argument_objects") and getattr(st, "last_kwargs", None) is not None and \
+                            st.last_kwargs[0] == op["cls"]:
+                        kwargs = st.last_kwargs[1]              # the very objects handed to the previous constructor
+                        ctx.probe("constructed_from_the_same_argument_objects")
+                    else:
+                        kwargs = {k: dec(v) for k, v in (op["args"] or {}).items()}
+                    st.last_kwargs = (op["cls"], kwargs)
                     o = cls(**kwargs)
                     st.objs.append(o)
                     if len(st.objs) > 6:
@@ -590,7 +600,7 @@ EVIDENCE = {"C15": {
                             "hvsrpy.process / preprocess for the 'equal processing result' clause"],
                    "stub": ["the raw storage device (SimFS, fault-injecting)"]},
     "assumptions": ["constructor default arguments are reset to their import-time values before and after every run so runs are independent",
-                    "explicit constructor arguments are fresh objects per construct (the caller does not share them)",
+                    "a quarter of the explicit constructs are followed by a second construct from the very same argument objects",
                     "instrument_transfer_function stays None (not JSON-serialisable)"],
 }}
 REQUIRED_PROBES = {"C15": ["roundtrip_judged_direct", "roundtrip_judged_dispatcher", "mutated_in_place"]}
